@@ -28,8 +28,15 @@ def build():
     c_cropping_progress.install(R)
     c_cropping_progress.install_lemmas(R)
     c_fs.install(R)
+    c_fs.install_c10(R)
     c_manage.install(R)
     c_manage.install_files(R)
+    c_manage.install_load_merge(R)
+    c_manage.install_harvester(R)
+    c_manage.install_harvester2(R)
+    c_manage.install_harvester3(R)
+    c_manage.install_harvester4(R)
+    c_manage.install_meta(R)
     # calls dropped as no-ops (DESIGN 2.2) -- every dropped call site is listed in the evidence
     R.inert |= {"print", "warnings.warn", "progbar", "time.sleep", "logger.setLevel", "logging.getLogger",
                 "sys.stderr.flush"}
